@@ -8,9 +8,10 @@ import random
 import streamlib as sl
 from vlib import build_lib
 
-THEOREMS = ["C12_loadDict_inv", "C12_loadDict_hist", "C12_loadDict_roundtrip", "C12_attach_inv", "C12_attach_roundtrip", "C12_dictctx_unchanged"]
+THEOREMS = ["C12_loadDict_inv", "C12_loadDict_hist", "C12_loadDict_roundtrip", "C12_attach_inv", "C12_attach_roundtrip", "C12_dictctx_unchanged", "C12_hc_mid_loadDict", "C12_hc_mid_loadDict_roundtrip", "C12_hc_mid_attach_roundtrip", "C12_hc_mid_saveDict_attached"]
 ORACLES = ["stream"]
-CORRESPONDENCE = ["Model.FastStream loadDict/loadDictSlow/attach_dictionary/compress_fast_continue (prefix, external dictionary, dictCtx with and without "
+CORRESPONDENCE = ["Model.HcMidStream (HC levels 1-2: initStreamHC, resetStreamHC(_fast), setCompressionLevel, loadDictHC/LZ4MID_fillHTable, attach_HC_dictionary with the dictionary context copied / detached / searched in place (LZ4MID_searchExtDict = Model.HcMidDict), setExternalDict, overlap trimming, 2 GB reload, compress_HC_continue(_destSize), saveDictHC (fixes F17, F18), extStateHC(_fastReset)) == lib/lz4hc.c: return value, consumed, bytes, both LZ4MID hash tables, end/prefixStart/dictStart (arena addresses), dictLimit/lowLimit/nextToUpdate, level, dirty, dictCtx null/non-null after EVERY mirrored call; calls at levels >= 3 or searching a dictionary context whose stream is at a level >= 3 (LZ4MID_searchHCDict) are outside the model (state re-imported afterwards)",
+                  "Model.FastStream loadDict/loadDictSlow/attach_dictionary/compress_fast_continue (prefix, external dictionary, dictCtx with and without "
                   "table copy) == lib/lz4.c: return value, output bytes and whole public stream state after EVERY operation"]
 RULE = ("dictionary sizes 0..13, 16, 40, 100, 1000, 4000, 4096, 20000, 64KB-1, 64KB, 64KB+1, 64KB+8, 70000, 130000 x method {loadDict, loadDictSlow, "
         "attach (loadDict / loadDictSlow prepared), struct copy of a prepared stream; HC: loadDictHC, attach_HC with every level pairing mid/hc/opt} x "
@@ -33,8 +34,10 @@ def build(tier):
 
 def gen_cases(tier, seed):
     rng = random.Random(seed)
-    # corpus: regression case of fixed finding F12, first on the real code alone (property oracle decides), then with the model
-    cases = [{"bseed": 12, "kind": "corpus_F12", "arena": 1 << 16, "model": False},
+    # corpus: regression cases of the fixed findings F18 and F12, each first on the real code alone (the property oracle decides), then with the model
+    cases = [{"bseed": 18, "kind": "corpus_F18", "arena": 1 << 16, "model": False},
+             {"bseed": 18, "kind": "corpus_F18", "arena": 1 << 16},
+             {"bseed": 12, "kind": "corpus_F12", "arena": 1 << 16, "model": False},
              {"bseed": 12, "kind": "corpus_F12", "arena": 1 << 16}]
     n = {"quick": 120, "search": 360, "thorough": 900}[tier]
     for i in range(n):
@@ -43,8 +46,8 @@ def gen_cases(tier, seed):
         dn = rng.choice(sl.DICT_SIZES if big else [d for d in sl.DICT_SIZES if d <= 20000] + [sl.K64, sl.K64 + 1])
         maxin = 70000 if big else rng.choice([5000, 5000, 20000])
         cases.append({"bseed": rng.randrange(1 << 48), "kind": "dict_" + fam, "fam": fam, "dn": dn, "maxin": maxin,
-                      "arena": dn + 3 * (maxin + 16) + 64 + 4096 + 200,
-                      "levels": sl.HC_LEVELS if maxin <= 5000 else sl.HC_LEVELS_CHEAP})
+                      "arena": dn + 3 * (maxin + 16) + 64 + 4096 + 200 + sl.K64 + 9016 + 80,
+                      "levels": [1, 2, 2] if (fam == "h" and i % 10 in (3, 8)) else sl.HC_LEVELS if maxin <= 5000 else sl.HC_LEVELS_CHEAP})   # [1,2,2]: LZ4MID only, mirrored on Model.HcMidStream
     # dictionary cut out of a larger buffer; inputs repeat its LAST bytes; every cross-level attach pairing (HC)
     k = {"quick": 1, "search": 3, "thorough": 6}[tier]
     for rep in range(k):
@@ -60,7 +63,7 @@ def gen_cases(tier, seed):
         ab.append({"bseed": rng.randrange(1 << 48), "kind": "attach_abandoned_f", "fam": "f", "arena": 1 << 17, "model": False})
     for i in range(k):
         ab.append({"bseed": rng.randrange(1 << 48), "kind": "attach_abandoned_" + ("f" if i % 3 else "h"), "fam": "f" if i % 3 else "h", "arena": 1 << 17})
-    cases = cases[:2] + ab + cases[2:]
+    cases = cases[:4] + ab + cases[4:]
     if tier == "search":
         # failing-input search: the real code alone, judged by the property oracles (a model mismatch would stop a script early)
         for c in cases:
@@ -72,6 +75,8 @@ worker_init = sl.worker_init
 def run_case(st, case):
     if case["kind"].startswith("attach_abandoned"):
         return sl.run_scenario(st, case, lambda S, rng: sl.scen_attach_abandoned(S, rng, case["fam"], {}))
+    if case["kind"] == "corpus_F18":
+        return sl.run_scenario(st, case, lambda S, rng: sl.corpus_savedict_attached(S, rng))
     if case["kind"] == "corpus_F12":
         return sl.run_scenario(st, case, lambda S, rng: sl.corpus_attach_history(S, rng))
     if case["kind"].startswith("dict_tail"):
